@@ -26,7 +26,11 @@ import (
 	"verif/refcodec"
 )
 
-func TestMain(m *testing.M) { ev.Main(m, "C02") }
+func TestMain(m *testing.M) {
+	// "not delivered within 10 s" is a wall-clock bound: it counts when the same case fails again straight away
+	ev.NeedsRepro("c02/no-delivery")
+	ev.Main(m, "C02")
+}
 
 type step struct {
 	Op     string         `json:"op"` // fetch | setoffset | append | trimstart
